@@ -128,6 +128,15 @@ func ScanHarnesses(root string) ([]*Harness, error) {
 				if len(fields) == 4 {
 					substs = append(substs, [3]string{fields[1], fields[2], fields[3]})
 				}
+			case "include":
+				// //verif:include <file relative to this file's dir or to the harness root>: import its "*" substs
+				if len(fields) == 2 {
+					inc := filepath.Join(filepath.Dir(path), fields[1])
+					if _, err := os.Stat(inc); err != nil {
+						inc = filepath.Join(root, fields[1])
+					}
+					substs = append(substs, includedSubsts(inc)...)
+				}
 			}
 		}
 		for _, h := range fileHs {
@@ -142,6 +151,25 @@ func ScanHarnesses(root string) ([]*Harness, error) {
 	})
 	sort.Slice(hs, func(i, j int) bool { return hs[i].Name < hs[j].Name })
 	return hs, err
+}
+
+func includedSubsts(file string) [][3]string {
+	var out [][3]string
+	data, err := os.ReadFile(file)
+	if err != nil {
+		return nil
+	}
+	for _, line := range strings.Split(string(data), "\n") {
+		line = strings.TrimSpace(line)
+		if !strings.HasPrefix(line, "//verif:subst ") {
+			continue
+		}
+		f := strings.Fields(strings.TrimPrefix(line, "//verif:"))
+		if len(f) == 4 && f[1] == "*" {
+			out = append(out, [3]string{"*", f[2], f[3]})
+		}
+	}
+	return out
 }
 
 type Loaded struct {
